@@ -98,13 +98,32 @@ func projHSMS(m ast.HSMSMessage) J {
 	return J{"kind": "unknown"}
 }
 
+// recvBuf is one receive buffer for the whole process, as a connection handler has: every frame is copied to its front
+// and decoded from there, the next frame overwrites it (nothing else touches it in between).
+var recvBuf = make([]byte, 1<<16)
+
+func decodeReused(b []byte) (ok bool, same bool, panicked bool) {
+	if len(b) > len(recvBuf) {
+		recvBuf = make([]byte, 2*len(b))
+	}
+	n := copy(recvBuf, b)
+	var m ast.HSMSMessage
+	panicked, _ = try(func() { m, ok = hsms.Parse(recvBuf[:n]) })
+	if ok && m != nil && !panicked {
+		try(func() { same = string(m.ToBytes()) == string(b) })
+	}
+	return
+}
+
 // decodeEvent records everything C01/C03/C13 look at for one input.
 func decodeEvent(b []byte) J {
 	ev := J{"bytes": bytesJ(b)}
 	e := decode(b, exact)
 	p := decode(b, poisoned)
+	rok, rsame, rpanic := decodeReused(b)
+	ev["rok"], ev["rsame"] = rok, rsame
 	ev["ok"], ev["pok"] = e.ok, p.ok
-	ev["panic"] = e.panick || p.panick
+	ev["panic"] = e.panick || p.panick || rpanic
 	ev["hdrs"] = e.hdrs
 	same := func(x []byte) (bool, []int) {
 		if string(x) == string(b) {
@@ -346,6 +365,42 @@ func driverRT(c *Ctx) {
 					carrier = ast.NewListNode(ast.NewASCIINode("k"), ast.NewListNode("inner9"))
 				}
 				m = m.FillVariables(map[string]interface{}{"hole9": carrier})
+			}
+		}
+		if c.want(i) && i%16 == 13 {
+			// items made with the factories from values of the narrowest Go types (signed and unsigned ones of exactly
+			// the item's width, the upper half of their range included): whatever the factory lets through must travel
+			w := []int{1, 2, 4}[g.pick(3)]
+			var vals []interface{}
+			for k := 0; k < 1+g.pick(4); k++ {
+				hi := g.pick(2) == 0
+				switch w {
+				case 1:
+					vals = append(vals, uint8(g.pick(128)+map[bool]int{true: 128, false: 0}[hi]))
+				case 2:
+					vals = append(vals, uint16(g.pick(32768)+map[bool]int{true: 32768, false: 0}[hi]))
+				default:
+					vals = append(vals, uint32(g.pick(1<<31))+map[bool]uint32{true: 1 << 31, false: 0}[hi])
+				}
+			}
+			var probe *ast.DataMessage
+			if p, _ := try(func() { probe = buildComplete(g, gm, ast.NewListNode(ast.NewIntNode(w, vals...)), 0) }); !p && probe != nil {
+				ev := decodeEvent(probe.ToBytes())
+				ev["ev"], ev["how"], ev["msg"] = "rt", "narrow-types", projMsg(probe)
+				c.emit(i, ev)
+				c.count("rt.narrow-types-built")
+			}
+		}
+		if c.want(i) && i%8 == 6 {
+			// two frames of the same shape and different contents, one after the other through the same receive buffer
+			for v := 0; v < 2; v++ {
+				lot := fmt.Sprintf("LOT-%04d", 2*i+v)
+				tw := buildComplete(g, gm, ast.NewListNode(ast.NewASCIINode(lot), ast.NewUintNode(4, 1000*v+i), ast.NewBinaryNode(v, 7),
+					ast.NewListNode(ast.NewASCIINode(fmt.Sprintf("WAFER-%02d", (i+v)%100)), ast.NewIntNode(2, -v))), 0)
+				ev := decodeEvent(tw.ToBytes())
+				ev["ev"], ev["how"], ev["msg"] = "rt", "same-shape", projMsg(tw)
+				c.emit(i, ev)
+				c.count("rt.same-shape")
 			}
 		}
 		if !c.want(i) {
@@ -721,6 +776,36 @@ func driverCorrupt(c *Ctx) {
 				}
 			}
 		}
+		if i%10 == 8 {
+			// float arrays of 512 .. 4096 values with one value that is not finite, first, in the middle or last
+			for k := 0; k < 6; k++ {
+				w := []int{4, 8}[g.pick(2)]
+				n := []int{512, 1023, 1024, 1500, 2048, 4096}[g.pick(6)]
+				pat := [][]byte{{0x7F, 0x80, 0, 0}, {0xFF, 0x80, 0, 0}, {0x7F, 0xC0, 0, 0}}[g.pick(3)]
+				if w == 8 {
+					pat = [][]byte{{0x7F, 0xF0, 0, 0, 0, 0, 0, 0}, {0xFF, 0xF0, 0, 0, 0, 0, 0, 0}, {0x7F, 0xF8, 0, 0, 0, 0, 0, 1}}[g.pick(3)]
+				}
+				at := []int{0, n / 2, n - 1}[g.pick(3)]
+				t := []byte{byte(map[int]int{4: 0x90, 8: 0x80}[w] | 3), byte(n * w >> 16), byte(n * w >> 8), byte(n * w)}
+				for j := 0; j < n; j++ {
+					if j == at && k > 0 {
+						t = append(t, pat...)
+						continue
+					}
+					v := make([]byte, w)
+					v[0], v[1] = 0x3F, byte(0x80+j%64) // an ordinary finite value
+					t = append(t, v...)
+				}
+				if g.pick(2) == 0 {
+					t = append([]byte{0x01, 0x02, 0x41, 0x03, 'T', 'R', '1'}, t...)
+				}
+				add("big-float-array", setLen(append(clone(base[:14]), t...)))
+			}
+		}
+		if i%10 == 7 && hasItem {
+			// the valid message once more, behind very many decodes that were refused deep inside nested lists (see below)
+			add("after-deep-refusals", base)
+		}
 		// unstructured bytes
 		for k := 0; k < 6; k++ {
 			n := 10 + g.pick(30)
@@ -733,6 +818,9 @@ func driverCorrupt(c *Ctx) {
 			add("random", r)
 		}
 		for v, b := range variants {
+			if names[v] == "after-deep-refusals" {
+				deepRefusals(g)
+			}
 			ev := decodeEvent(b)
 			ev["ev"] = "dec"
 			ev["how"] = names[v]
@@ -744,6 +832,31 @@ func driverCorrupt(c *Ctx) {
 }
 
 var _ = strings.Repeat
+
+// deepRefusals: 130 messages of 16 384 nested lists each, well-formed down to the innermost item, which the item
+// factories refuse (a float that is not finite) or which is cut short - the decoder gives up with all those lists open.
+// Nothing of that may be left for the decode that follows.
+func deepRefusals(g *Gen) {
+	const depth = 16384
+	for k := 0; k < 130; k++ {
+		t := make([]byte, 0, 2*depth+16)
+		for j := 0; j < depth; j++ {
+			t = append(t, 0x01, 0x01)
+		}
+		switch k % 4 {
+		case 0:
+			t = append(t, 0x91, 0x04, 0x7F, 0xC0, 0, 0) // F4 NaN
+		case 1:
+			t = append(t, 0x81, 0x08, 0x7F, 0xF0, 0, 0, 0, 0, 0, 0) // F8 +Inf
+		case 2:
+			t = append(t, 0x41, 0x02, 0x80, 0x41) // a byte that is not 7-bit ASCII
+		default:
+			t = append(t, 0xA9, 0x04, 0x00) // cut short
+		}
+		msg := setLen(append([]byte{0, 0, 0, 0, 0, 1, 0x01, 0x01, 0, 0, 0, 0, 0, byte(k)}, t...))
+		try(func() { hsms.Parse(msg) })
+	}
+}
 
 // ---------------------------------------------------------------- TLC -> Go replay of MCRoundTrip cases
 
